@@ -23,6 +23,13 @@ CHECKS = {
                      "enclosing expression against the reference interpreter",
                 note="states = instruction boundaries visited on the real VM (no model gap); trusted: monitor in harness/vm.cpp, reference interpreter",
                 technique="explicit exploration of all executions of a bounded program space with an invariant monitor at every instruction boundary"),
+    "C04": dict(level="model_checking", ref="3/C04",
+                text="fault placement (8 error kinds x 6 handler placements x every template chain: trace, result code, stack-trace line, "
+                     "handler-runs-once and continuation compared with the reference) and explicit-state exploration of all run histories "
+                     "(8 run kinds, length <=3/4) on one VM where each run is judged independently of what preceded it",
+                note="trusted: reference interpreter (except__ is the only runtime-error handler), observable VM state key (error flag, pending "
+                     "messages, contexts, state) for the history exploration",
+                technique="exhaustive fault-placement enumeration plus explicit-state search over run histories on the real VM"),
 }
 
 PENDING_REASON = "check not built yet in this round (planned, see DESIGN.md section 3)"
